@@ -12,7 +12,8 @@ def model_text(ident, role):
     s = ident if role == "state" else "x"
     p = ident if role == "param" else "a"
     w = ident if role == "inter" else "w"
-    return (f"states({s} = 1.5, y = 0.5)\nparameters({p} = 2)\n{w} = ({p} * {s} + y) * ({p} * {s} + y)\nu = {w} - 18\nv = (u + y) / (2 + (u + y))\nd{s}_dt = {w} - {s} + v\ndy_dt = {s} * {p}\n"), s, p, w
+    extra = f", {ident} = 3" if role == "unused" else ""
+    return (f"states({s} = 1.5, y = 0.5)\nparameters({p} = 2{extra})\n{w} = ({p} * {s} + y) * ({p} * {s} + y)\nu = {w} - 18\nv = (u + y) / (2 + (u + y))\nd{s}_dt = {w} - {s} + v\ndy_dt = {s} * {p}\n"), s, p, w
 
 
 def check_ident(rec, backend, workdir=None):
@@ -48,8 +49,12 @@ def check_ident(rec, backend, workdir=None):
         S = [0.0, 0.0]
         S[mod.index("state", s)] = qf(inp["s"])
         S[mod.index("state", "y")] = qf(inp["y"])
-        P = [qf(inp["p"])]
-        if sorted(mod.index("state", n) for n in sn) != [0, 1] or mod.index("parameter", p) != 0:
+        pn = [p] + ([ident] if role == "unused" else [])
+        P = [0.0] * len(pn)
+        P[mod.index("parameter", p)] = qf(inp["p"])
+        if role == "unused":
+            P[mod.index("parameter", ident)] = 3.0
+        if sorted(mod.index("state", n) for n in sn) != [0, 1] or sorted(mod.index("parameter", n) for n in pn) != list(range(len(pn))):
             out["problems"].append({"kind": "index", "message": "index functions are not a bijection"})
         t, dt = qf(inp["t"]), qf(inp["dt"])
         for fn, dtv, names, kind, exp, key in (("rhs", None, sn, "state", rec["den"], lambda n: ren(f"d{n}_dt")),
